@@ -281,6 +281,24 @@ class MeshTet1(MeshSimplex, Mesh3D):
                 nn = len(i)
                 nix = slice(ns, ns + nn)
 
+                # the work arrays are sized by a guess; enlarge them if the
+                # closure of the marked set needs more room
+                if ns + nn > split_edge.shape[1]:
+                    grow = max(nn, split_edge.shape[1])
+                    split_edge = np.hstack((
+                        split_edge,
+                        np.zeros((3, grow), dtype=np.int32),
+                    ))
+                    nonconf = np.concatenate((
+                        nonconf,
+                        np.ones(grow, dtype=np.int8),
+                    ))
+                if nv + nn > p.shape[1]:
+                    p = np.hstack((
+                        p,
+                        np.zeros((3, max(nn, p.shape[1])), dtype=np.float64),
+                    ))
+
                 split_edge[0, nix] = i
                 split_edge[1, nix] = j
                 split_edge[2, nix] = np.arange(nv, nv + nn, dtype=np.int32)
@@ -300,6 +318,13 @@ class MeshTet1(MeshSimplex, Mesh3D):
                 ns += nn
 
             # add new elements
+            if nt + nm > t.shape[1]:
+                grow = max(nm, t.shape[1])
+                t = np.hstack((t, np.zeros((4, grow), dtype=np.int32)))
+                parent = np.concatenate((
+                    parent,
+                    np.zeros(grow, dtype=np.int32),
+                ))
             t[:, marked] = np.vstack((t3, t0, t2, tnew))
             t[:, nt:(nt + nm)] = np.vstack((t2, t1, t3, tnew))
             parent[nt:(nt + nm)] = parent[marked]
